@@ -181,7 +181,7 @@ PROPS = {
     "C11": {
         "id": "C11",
         "title": "FIR and window designs meet their closed-form specifications",
-        "rules": ["R1", "R2"],
+        "rules": ["R1", "R2", "N3"],
         "clause": "a custom window of the wrong length is rejected: on every path from either windowed fir1 overload to a normal "
                   "return a live throwing comparison of win.size() with the order is passed (in the design helper that path calls)",
         "not_decided": "symmetry, DC/Nyquist gain, the Hamming-design masks, the closed forms of all window functions",
